@@ -15,7 +15,7 @@ func registerC12() {
 		Level: "exploration",
 		Rule: "PRNG sequences mixing explicit timestamps (field 253), compressed-timestamp records (all 32 offsets, rollovers, runs of up to 200) and local timestamps over " +
 			"record / monitoring / activity / lap / device_info messages, messages without a timestamp field and unknown messages, both byte orders, local types 0-3; every time " +
-			"field of every decoded message is compared with a 30-line reference state machine (ref/interp.go); non-trivial: at least one compressed record with a reference, " +
+			"field of every decoded message is compared with a 30-line reference state machine (ref/interp.go); family chains: 2-3 such sequences concatenated and decoded by DecodeChained: the time reference starts afresh in every file (a compressed record or local timestamp before a file's first explicit timestamp has no reference); non-trivial: at least one compressed record with a reference, " +
 			"or a local timestamp, was compared; distinct by stream digest",
 		Assume: []string{
 			"not generated because the statement leaves them open: an explicit timestamp of value 0 followed by compressed records; field 253 in a message or definition the profile does not know",
@@ -24,6 +24,7 @@ func registerC12() {
 		MinNontrivial: 500,
 		Families: []lib.Family{
 			{Name: "sequences", N: func(t string) uint64 { return tierN(t, 100000, 2000000) }, Run: c12Case},
+			{Name: "chains", N: func(t string) uint64 { return tierN(t, 6000, 200000) }, Run: c12Chain},
 		},
 	})
 }
@@ -40,6 +41,48 @@ var c12Mesgs = map[byte][]uint16{
 
 func c12Case(c *lib.Ctx, idx uint64) {
 	rng := lib.NewRand("C12.sequences", idx)
+	plan := c12Plan(rng, idx)
+	c12Check(c, plan)
+}
+
+// c12Chain: the reference timestamp is per file.
+func c12Chain(c *lib.Ctx, idx uint64) {
+	rng := lib.NewRand("C12.chains", idx)
+	n := 2 + rng.Intn(2)
+	var plans []*ref.Plan
+	var chain []byte
+	for i := 0; i < n; i++ {
+		p := c12Plan(rng, idx+uint64(i))
+		plans = append(plans, p)
+		chain = append(chain, p.Bytes()...)
+	}
+	c.SetInflight(chain)
+	res := lib.CallResult{}
+	o := lib.Guard(func() { res = lib.Call("DecodeChained", lib.NewReader(chain, lib.Chunker{Kind: "whole"})) })
+	c.Eval()
+	if o.Panicked || o.Hang {
+		c.Violation(chain, "DecodeChained panicked/hung: %s", o.Panic)
+		return
+	}
+	if res.Err != nil || len(res.Files) != n {
+		c.Violation(chain, "DecodeChained over %d well-formed files: %d files, error %v", n, len(res.Files), res.Err)
+		return
+	}
+	for i, p := range plans {
+		ex, err := lib.Expect(p, lib.ExpectOpts{})
+		if err != nil || ex.Fail {
+			return
+		}
+		if diffs := lib.CompareContent(ex.Content, lib.FileContent(res.Files[i]), lib.CompareOpts{Header: true, Skip: compSkip(p, ex)}); len(diffs) > 0 {
+			c.Violation(chain, "file %d of a chain: time fields differ from the rules applied to this file alone: %s", i+1, lib.DiffsString(diffs, 3))
+			return
+		}
+	}
+	c.Count("chains", 1)
+	c.Nontrivial(chain)
+}
+
+func c12Plan(rng *lib.Rand, idx uint64) *ref.Plan {
 	fts := []byte{4, 4, 32, 15, 7}
 	ft := fts[idx%uint64(len(fts))]
 	nrec := 10 + rng.Intn(40)
@@ -78,7 +121,10 @@ func c12Case(c *lib.Ctx, idx uint64) {
 		},
 	}
 	g := lib.NewPlanGen(rng, o)
-	plan := g.Fill()
+	return g.Fill()
+}
+
+func c12Check(c *lib.Ctx, plan *ref.Plan) {
 	ex, _, ok := checkPlanDecode(c, plan, "", true)
 	if !ok || ex == nil {
 		return
